@@ -40,3 +40,37 @@ Proof.
     by (unfold S; field; exact Hn).
   rewrite Hs. field. lra.
 Qed.
+
+Lemma gs_orth (a u : v3 R) : vdot u u = 1 -> vdot (vsub a (vscale (vdot a u) u)) u = 0.
+Proof.
+  destruct a as [a b c], u as [p q r]. unfold vdot, vsub, vscale; cbn [vx vy vz]; rnum. intros H.
+  replace ((a - (a * p + b * q + c * r) * p) * p + (b - (a * p + b * q + c * r) * q) * q + (c - (a * p + b * q + c * r) * r) * r)
+    with ((a * p + b * q + c * r) * (1 - (p * p + q * q + r * r))) by ring.
+  rewrite H. ring.
+Qed.
+Lemma vdivs_dot (g u : v3 R) n : vdot (vdivs g n) u = vdot g u / n.
+Proof. destruct g, u. unfold vdot, vdivs; cbn [vx vy vz]; rnum. unfold Rdiv. ring. Qed.
+
+(* at the control points: whatever the interpolated vectors are, as long as the interpolated span vector does not vanish and the
+   interpolated axial vector is not parallel to it, the result is an orthonormal triad again *)
+Theorem cp_triad_orthonormal xs uas uss s :
+  let us0 := interp_vec xs uss s in
+  let ua0 := interp_vec xs uas s in
+  vdot us0 us0 <> 0 ->
+  (let us := vdivs us0 (vnorm us0) in let ua1 := vsub ua0 (vscale (vdot ua0 us) us) in vdot ua1 ua1 <> 0) ->
+  let '(ua, un, us) := cp_triad xs uas uss s in
+  vdot ua ua = 1 /\ vdot un un = 1 /\ vdot us us = 1 /\ vdot ua us = 0 /\ vdot un ua = 0 /\ vdot un us = 0.
+Proof.
+  intros us0 ua0 Hs Ha. unfold cp_triad. fold us0 ua0. cbv zeta in Ha.
+  assert (Hus : vdot (vdivs us0 (vnorm us0)) (vdivs us0 (vnorm us0)) = 1) by (apply vdivs_unit; exact Hs).
+  pose proof (gs_orth ua0 _ Hus) as H1.
+  pose proof (vdivs_unit _ Ha) as Hua.
+  assert (Horth : vdot (vdivs (vsub ua0 (vscale (vdot ua0 (vdivs us0 (vnorm us0))) (vdivs us0 (vnorm us0))))
+                              (vnorm (vsub ua0 (vscale (vdot ua0 (vdivs us0 (vnorm us0))) (vdivs us0 (vnorm us0))))))
+                       (vdivs us0 (vnorm us0)) = 0).
+  { rewrite vdivs_dot, H1. unfold Rdiv. ring. }
+  repeat split; try assumption.
+  - rewrite cross_norm2, Hua, Hus, Horth. ring.
+  - apply cross_dot_left.
+  - apply cross_dot_right.
+Qed.
